@@ -78,6 +78,8 @@ def run_cases(ctx, cd, cases, strict_window=False):
     if derrs:
         ctx.violation(dict(kind="harness-crash", detail=derrs[:2]), what="zv_codec crashed while decompressing: %r" % (derrs[0],))
     mres = cd.model(rcases)
+    # A-tie: rebuild every emitted frame with the serialiser model A (coq/Codec/Encode.v) from what R saw; must be byte-identical
+    ares = cd.model([(i, (fl + "," if fl else "") + "asm", d, f) for i, fl, d, f in rcases])
     hist = {}
     for c in cases:
         if "frame" not in c:
@@ -97,6 +99,14 @@ def run_cases(ctx, cd, cases, strict_window=False):
             ctx.violation(dict(rep, decoder="R", result="content differs"),
                           what="reference decoder R decodes the compressor's output to different bytes (entry %s, params %s, |x|=%d)" % (c["entry"], c["params"], len(x)))
             continue
+        a = ares.get(c["id"], ("ERR", "missing", -1))
+        if a[0] != "OK" or a[2] != "ASM=same":
+            ctx.violation(dict(rep, correspondence="A (serialiser model Codec/Encode.v: frame header, block framing, raw/RLE blocks, epilogue) vs the emitted frame",
+                               theorems=["C01_frame_header_round_trip", "C01_frame_assembly_round_trip", "C01_store_compressor_lossless"], result=str(a)[:200]),
+                          what="serialiser model A does not reproduce the frame the compressor emitted (%s); the round trip of this frame itself succeeded" % (a[2] if a[0] == "OK" else "R/A error %s" % (a[1],)),
+                          no_input=True)
+        else:
+            ctx.cov["frames_rebuilt_by_A"] = ctx.cov.get("frames_rebuilt_by_A", 0) + 1
         frames = codec.parse_trace(m[2])
         c["trace"] = frames
         sig = codec.trace_signature(frames)
@@ -109,6 +119,154 @@ def run_cases(ctx, cd, cases, strict_window=False):
         if len(x) < 64:
             ctx.sample(dict(entry=c["entry"], params=c["params"], input_hex=x.hex(), frame_hex=c["frame"].hex()))
     return hist
+
+
+def header_tie(ctx, cd):
+    """unit-level tie: ZSTD_writeFrameHeader of the current tree vs Encode.enc_fheader on a boundary grid + seeded random vectors"""
+    exe = core.build_harness("c01_hdr", ["c01_hdr.c"], variant="o1", extra_flags=["-w"])
+    rng = random.Random(ctx.seed + 7)
+    vec = []
+    dids = [0, 1, 255, 256, 65535, 65536, 2**32 - 1]
+    for wl in range(10, 32):
+        pls = [0, 1, 255, 256, 257, 65791, 65792, 65793, 2**wl - 1, 2**wl, 2**wl + 1, 2**32 - 2, 2**32 - 1, 2**32, 2**64 - 2]
+        for fl in range(16):
+            cs, ck, nd, ml = fl & 1, (fl >> 1) & 1, (fl >> 2) & 1, (fl >> 3) & 1
+            for pl in (pls if (ctx.tier == "thorough" or wl in (10, 16, 17, 27, 31)) else pls[::3]):
+                vec.append((wl, cs, ck, nd, ml, pl, rng.choice(dids)))
+    for _ in range(3000 if ctx.tier == "thorough" else 600):
+        vec.append((rng.randint(10, 31), rng.getrandbits(1), rng.getrandbits(1), rng.getrandbits(1), rng.getrandbits(1),
+                    rng.choice([rng.getrandbits(rng.randint(0, 64)) % (2**64 - 1), rng.randint(0, 70000)]), rng.choice(dids + [rng.getrandbits(32)])))
+    lines = ["h%d %d %d %d %d %d %d %d" % ((i,) + v) for i, v in enumerate(vec)]
+    out = core.sh([exe], inp=("\n".join(lines) + "\n").encode())
+    impl = {}
+    for l in out[1].splitlines():
+        t = l.split(" ")
+        impl[t[0]] = t[2] if t[1] == "OK" else "ERR"
+    mres = cd.model([("h%d" % i, "fhdr=%d:%d:%d:%d:%d:%d:%d" % v, None, b"") for i, v in enumerate(vec)])
+    bad = 0
+    for i, v in enumerate(vec):
+        k = "h%d" % i
+        m = mres.get(k, ("ERR", "missing", -1))
+        mh = m[1].hex() if m[0] == "OK" else "ERR"
+        ctx.count(("hdr", v[0] >= 17, v[1], v[2], v[3], v[4], (v[5] >= 256) + (v[5] >= 65792) + (v[5] >= 2**32 - 1), v[5] <= 2**v[0],
+                   (v[6] > 0) + (v[6] > 255) + (v[6] > 65535)), nontrivial=True)
+        if impl.get(k) != mh:
+            bad += 1
+            if bad <= 3:
+                wl, cs, ck, nd, ml, pl, di = v
+                # direct oracle: does the header the implementation wrote still parse back to the fields it was given (via R)?
+                hr = cd.model([("p", "hdr" + (",magicless" if ml else ""), None, bytes.fromhex(impl.get(k, "")) if impl.get(k, "ERR") != "ERR" else b"")]).get("p")
+                concrete = False
+                if hr and hr[0] == "OK":
+                    pass
+                ctx.violation(dict(kind="frame-header-writer", windowLog=wl, contentSizeFlag=cs, checksumFlag=ck, noDictIDFlag=nd, magicless=ml,
+                                   pledgedSrcSize=pl, dictID=di, impl_hex=impl.get(k), model_hex=mh,
+                                   theorem="C01_frame_header_round_trip"),
+                              what="ZSTD_writeFrameHeader(windowLog %d, contentSize %d, checksum %d, noDictID %d, magicless %d, pledged %d, dictID %d) = %s but the model writes %s"
+                                   % (wl, cs, ck, nd, ml, pl, di, impl.get(k), mh), no_input=True)
+    ctx.notes["header_vectors"] = len(vec)
+    ctx.cov["traces_validated_against_impl"] += len(vec) - bad
+
+
+def gen_parse(rng, nseq, maxll, maxml):
+    """a random valid parse (literals, [(ll, ml, ofv)]) and the bytes it stands for; repeat-offset codes included"""
+    rep = [1, 4, 8]
+    out = bytearray()
+    lits = bytearray()
+    qs = []
+    for _ in range(nseq):
+        ll = rng.choice([0, 0, 1, 2, rng.randint(0, maxll)])
+        if len(out) == 0 and ll == 0:
+            ll = rng.randint(1, 8)
+        seg = bytes(rng.getrandbits(8) for _ in range(ll)) if rng.random() < 0.5 else bytes([rng.getrandbits(8)]) * ll
+        lits += seg
+        out += seg
+        off = None
+        if rng.random() < 0.45:
+            ofv = rng.randint(1, 3)
+            idx = ofv + (1 if ll == 0 else 0)
+            if idx == 1:
+                off, nrep = rep[0], rep
+            elif idx == 2:
+                off, nrep = rep[1], [rep[1], rep[0], rep[2]]
+            elif idx == 3:
+                off, nrep = rep[2], [rep[2], rep[0], rep[1]]
+            else:
+                off, nrep = rep[0] - 1, [rep[0] - 1, rep[0], rep[1]]
+            if not (1 <= off <= len(out)):
+                off = None
+        if off is None:
+            off = min(len(out), rng.choice([1, 2, 3, rng.randint(1, len(out)), rng.randint(1, min(len(out), 16)), len(out)]))
+            ofv = off + 3
+            nrep = [off, rep[0], rep[1]]
+        ml = rng.choice([3, 4, 5, rng.randint(3, maxml), rng.randint(3, 40)])
+        rep = nrep
+        for _ in range(ml):
+            out.append(out[-off])
+        qs.append((ll, ml, ofv))
+    tail = bytes(rng.getrandbits(8) for _ in range(rng.choice([0, 0, 1, rng.randint(0, maxll)])))
+    lits += tail
+    out += tail
+    return bytes(lits), qs, bytes(out)
+
+
+def lz_tie(ctx, cd):
+    """A -> implementation: frames the MODEL builds from random valid parses (raw literals, predefined tables, the search-based FSE
+    encoder, model bit packing, model frame header / checksum) must be decoded by libzstd and by R to the parsed bytes"""
+    rng = random.Random(ctx.seed + 31)
+    n = 60 if ctx.quick else 600
+    cases = []
+    for i in range(n):
+        shape = rng.choice(["few", "few", "mid", "many", "long"])
+        if shape == "few":
+            lits, qs, out = gen_parse(rng, rng.randint(1, 6), 40, 60)
+        elif shape == "mid":
+            lits, qs, out = gen_parse(rng, rng.randint(7, 126), 30, 200)
+        elif shape == "many":
+            lits, qs, out = gen_parse(rng, rng.choice([127, 128, 129, rng.randint(130, 1500)]), 6, 30)
+        else:
+            lits, qs, out = gen_parse(rng, rng.randint(1, 12), 9000, 20000)
+        if len(out) > 120000 or len(lits) > 100000:
+            continue
+        wlog = rng.choice([17, 18, 20, 23, 27])
+        cs, ck = rng.getrandbits(1), rng.getrandbits(1)
+        cases.append(dict(id="z%d" % i, lits=lits, qs=qs, out=out, wlog=wlog, cs=cs, ck=ck))
+    mres = cd.model([(c["id"], "lzenc=%d:%d:%d:%s" % (c["wlog"], c["cs"], c["ck"], ";".join("%d.%d.%d" % q for q in c["qs"])), c["lits"], b"") for c in cases])
+    dec = []
+    for c in cases:
+        m = mres.get(c["id"], ("ERR", "missing", -1))
+        if m[0] == "ERR" and m[1] == "toolarge":
+            continue      # compressed form larger than Block_Maximum_Size: outside the theorem (the library stores such a block raw)
+        if m[0] != "OK":
+            ctx.violation(dict(kind="model-encoder-refuses-valid-parse", lits_hex=c["lits"].hex()[:4000], seqs=c["qs"][:200], result=str(m)),
+                          what="the model encoder A refuses a valid parse (%s): theorem C01_basic_block_encoder_total no longer describes the run" % (m,), no_input=True)
+            continue
+        c["regen"], c["frame"] = m[1], bytes.fromhex(m[2]) if m[2] != "-" else b""
+        if c["regen"] != c["out"]:
+            ctx.violation(dict(kind="lz-semantics", lits_hex=c["lits"].hex()[:4000], seqs=c["qs"][:200]),
+                          what="list-level LZ semantics of the model (lz_exec) disagrees with the independent Python executor", no_input=True)
+            continue
+        dec.append("D %s dctx - - %s %d" % (c["id"], codec.hx(c["frame"]), len(c["out"]) + 16))
+    dout, derrs = cd.impl(dec)
+    rres = cd.model([(c["id"], "", None, c["frame"]) for c in cases if "frame" in c])
+    ok = 0
+    for c in cases:
+        if "frame" not in c:
+            continue
+        d = codec.parse_ok(dout.get(c["id"], "ERR missing"))
+        r = rres.get(c["id"], ("ERR", "missing", -1))
+        rep = dict(kind="model-built-frame", frame_hex=c["frame"].hex()[:100000], expected_hex=c["out"].hex()[:100000], seqs=c["qs"][:200])
+        if d[0] != "OK" or d[1] != c["out"]:
+            ctx.violation(dict(rep, decoder="libzstd", result=str(d[:2])[:200]),
+                          what="libzstd does not decode a frame built by the proved serialiser model A from a valid parse (%d sequences, %d bytes) to the parsed bytes: %s"
+                               % (len(c["qs"]), len(c["out"]), d[1] if d[0] == "ERR" else "content differs"))
+        elif r[0] != "OK" or r[1] != c["out"]:
+            ctx.violation(dict(rep, decoder="R", result=str(r[:2])[:200]), what="R does not decode the model-built frame to the parsed bytes", no_input=True)
+        else:
+            ok += 1
+            ctx.count(("lzframe", min(len(c["qs"]), 130) // 10, len(c["qs"]) >= 128, c["cs"], c["ck"], any(q[2] <= 3 for q in c["qs"]), len(c["lits"]) >= 32, len(c["lits"]) >= 4096), nontrivial=True)
+    ctx.cov["model_built_frames_decoded_by_impl"] = ok
+    ctx.cov["traces_validated_against_impl"] += ok
 
 
 def search_tables(ctx, cd):
@@ -140,6 +298,9 @@ def run(ctx):
     else:
         cases = make_cases(ctx, rng)
     hist = run_cases(ctx, cd, cases)
+    if not ctx.replay_file:
+        header_tie(ctx, cd)
+        lz_tie(ctx, cd)
     ctx.notes["block_histogram"] = hist
     ctx.notes["input_kinds"] = {k: sum(1 for c in cases if c["kind"] == k) for k in set(c["kind"] for c in cases)}
     ctx.notes["entries"] = {k: sum(1 for c in cases if c["entry"].split(":")[0] == k) for k in set(c["entry"].split(":")[0] for c in cases)}
